@@ -207,6 +207,9 @@ def run(ctx):
             c = json.loads(json.dumps(ev[0]["case"]))
             c["mode"], c["seed"] = "multi", ctx.seed * 1000 + rid * 31 + k + 1
             c["spec"]["hasref"], c["spec"]["ref"] = True, ref
+            if k == 0 and rid % 15 == 1 and len(c["pushes"]) > 4:
+                # the source pauses for more than a second of wall-clock time in the middle of the stream
+                c["pushes"][len(c["pushes"]) // 2]["pause_ms"] = 1300
             multis.append(c)
     mp, mt = os.path.join(wd, "multi-cases.ndjson"), os.path.join(wd, "multi.ndjson")
     vlib.write_ndjson(mp, multis)
